@@ -80,7 +80,8 @@ func runCase(base string, i int, c cs) (rec, error) {
 		p.Apply(kobj.Ingress("d", "first", 0, map[string]string{"auth-url": "http://10.0.0.8:8000/other", "ssl-redirect": "false"}, nil,
 			[]kobj.Rule{{Host: "c.local", Paths: []kobj.Path{{Path: "/", Svc: "app2", Port: "8080"}}}}, nil, nil))
 	}
-	ann := map[string]string{"ssl-redirect": "false", "auth-external-placement": c.Placement}
+	// the protected hostname is also known as b.local: a request using the alias is the same request
+	ann := map[string]string{"ssl-redirect": "false", "auth-external-placement": c.Placement, "server-alias": "b.local"}
 	if c.URL != "none" {
 		ann["auth-url"] = urls[c.URL]
 	}
